@@ -712,6 +712,7 @@ def run(chk):
 
 
 MUTANTS = [
+    ('all crossings of a leg discarded before a single-leg jump', 'yastn/tensor/_einsum.py', '                _key, partner = tp[C][ax][0]\n                z2.discard(_key)\n', '                _, partner = tp[C][ax][0]\n                for _key, _ in tp[C][ax]:\n                    z2.discard(_key)\n', 'W9'),
     ('swap inserted instead of toggled', 'yastn/tensor/_einsum.py', '        z2.symmetric_difference_update({_canonical(edge_a, edge_b)})', '        z2.add(_canonical(edge_a, edge_b))', 'W8'),
     ('inverse permutation in swap_gate(charge=)', 'yastn/tensor/_contractions.py', '        axes = tuple(a.trans[ax] for ax in axes)', '        axes = tuple(a.trans.index(ax) for ax in axes)', 'W7'),
     ("flag vector of length 1", "yastn/tensor/_contractions.py", "    fss = (True,) * nsym if a.config.fermionic is True else a.config.fermionic", "    fss = (True,) if a.config.fermionic is True else a.config.fermionic", "W2"),
